@@ -765,41 +765,21 @@ static int _yr_compiler_define_variable(
     return ERROR_DUPLICATED_EXTERNAL_VARIABLE;
 
   YR_ARENA_REF ext_ref;
-  YR_ARENA_REF ref;
+  YR_ARENA_REF id_ref;
+  YR_ARENA_REF value_ref = YR_ARENA_NULL_REF;
 
-  FAIL_ON_ERROR(yr_arena_allocate_struct(
-      compiler->arena,
-      YR_EXTERNAL_VARIABLES_TABLE,
-      sizeof(YR_EXTERNAL_VARIABLE),
-      &ext_ref,
-      offsetof(YR_EXTERNAL_VARIABLE, identifier),
-      EOL));
-
-  ext = (YR_EXTERNAL_VARIABLE*) yr_arena_ref_to_ptr(compiler->arena, &ext_ref);
+  // Everything that can fail is done before the entry is added to the
+  // externals table, and the entry itself is allocated last: a definition that
+  // fails half-way must not leave an incomplete entry behind, as an entry with
+  // type EXTERNAL_VARIABLE_TYPE_NULL marks the end of the table and would hide
+  // every variable defined afterwards.
 
   FAIL_ON_ERROR(
-      _yr_compiler_store_string(compiler, external->identifier, &ref));
-
-  ext->identifier = (const char*) yr_arena_ref_to_ptr(compiler->arena, &ref);
-
-  ext->type = external->type;
-  ext->value = external->value;
+      _yr_compiler_store_string(compiler, external->identifier, &id_ref));
 
   if (external->type == EXTERNAL_VARIABLE_TYPE_STRING)
-  {
-    if (external->value.s == NULL)
-      return ERROR_INVALID_ARGUMENT;
-
-    FAIL_ON_ERROR(_yr_compiler_store_string(compiler, external->value.s, &ref));
-
-    FAIL_ON_ERROR(yr_arena_make_ptr_relocatable(
-        compiler->arena,
-        YR_EXTERNAL_VARIABLES_TABLE,
-        ext_ref.offset + offsetof(YR_EXTERNAL_VARIABLE, value.s),
-        EOL));
-
-    ext->value.s = (char*) yr_arena_ref_to_ptr(compiler->arena, &ref);
-  }
+    FAIL_ON_ERROR(
+        _yr_compiler_store_string(compiler, external->value.s, &value_ref));
 
   FAIL_ON_ERROR(yr_object_from_external_variable(external, &object));
 
@@ -807,6 +787,43 @@ static int _yr_compiler_define_variable(
       yr_hash_table_add(
           compiler->objects_table, external->identifier, NULL, (void*) object),
       yr_object_destroy(object));
+
+  int result;
+
+  if (external->type == EXTERNAL_VARIABLE_TYPE_STRING)
+    result = yr_arena_allocate_struct(
+        compiler->arena,
+        YR_EXTERNAL_VARIABLES_TABLE,
+        sizeof(YR_EXTERNAL_VARIABLE),
+        &ext_ref,
+        offsetof(YR_EXTERNAL_VARIABLE, identifier),
+        offsetof(YR_EXTERNAL_VARIABLE, value.s),
+        EOL);
+  else
+    result = yr_arena_allocate_struct(
+        compiler->arena,
+        YR_EXTERNAL_VARIABLES_TABLE,
+        sizeof(YR_EXTERNAL_VARIABLE),
+        &ext_ref,
+        offsetof(YR_EXTERNAL_VARIABLE, identifier),
+        EOL);
+
+  if (result != ERROR_SUCCESS)
+  {
+    yr_hash_table_remove(compiler->objects_table, external->identifier, NULL);
+    yr_object_destroy(object);
+    return result;
+  }
+
+  ext = (YR_EXTERNAL_VARIABLE*) yr_arena_ref_to_ptr(compiler->arena, &ext_ref);
+
+  ext->type = external->type;
+  ext->value = external->value;
+  ext->identifier = (const char*) yr_arena_ref_to_ptr(
+      compiler->arena, &id_ref);
+
+  if (external->type == EXTERNAL_VARIABLE_TYPE_STRING)
+    ext->value.s = (char*) yr_arena_ref_to_ptr(compiler->arena, &value_ref);
 
   return ERROR_SUCCESS;
 }
